@@ -110,6 +110,18 @@ def regen_tables(log):
     return True
 
 
+def regen_sites(log):
+    rc, out = sh([os.path.join(BIN, "sites"), REPO], timeout=120)
+    if rc != 0:
+        log("site scan failed:\n" + out)
+        return False
+    with Lock("coq"):
+        changed = write_if_changed(os.path.join(COQ, "gen", "WriteSites.v"), out)
+    if changed:
+        log("gen/WriteSites.v changed (regenerated from the current tree)")
+    return True
+
+
 def go_run(cases, log, timeout=600):
     """Run cases (list of dicts with 'id' and 'op') through the Go runner.  Returns {id: obs}.
     A case during which the process died is reported as status 'crash' and the runner restarted."""
